@@ -11,7 +11,7 @@ RULE = ("Moebius-image equilibrium tissues (jittered-hexagonal, uniform and Pois
         "sampled points per interface, straight Voronoi tissues (all pressures vanish), sub-tissues containing cells "
         "without internal interface, cells stored counter-clockwise / clockwise / mixed, interfaces stored in either "
         "direction, arbitrary tension vectors (linearity); plus stand-alone arcs for the turning estimator (n=2..17, "
-        "turning up to 1.5 rad, scales 1e-3..1e3, both directions). distinct = (family, cells, interfaces, points, "
+        "turning up to 1.5 rad, scales 1e-3..1e3, both directions; 30 % sampled non-uniformly, spacing ratio within 1+-0.3, judged on the sampling-independent clauses only). distinct = (family, cells, interfaces, points, "
         "orientation pattern); non-trivial = at least one internal interface"
         ' Added after the seeded rounds: reference tensions set on every interface, exact zero tensions, a hub cell with 128..149 neighbours, a second pressure step on a kept object judged against the current frame.')
 MIN_DECISIVE = {"quick": 120, "thorough": 1500}
@@ -247,10 +247,19 @@ def _arcs_case(case, mon, sigs):
         scale = 10 ** rng.uniform(-3, 3)
         rot = np.exp(1j * rng.uniform(0, 2 * np.pi))
         off = complex(*rng.uniform(-10, 10, 2)) * scale
+        # 30 % of the arcs are sampled NON-uniformly (smooth warp, neighbouring spacings within 1 +- 0.3): the clauses that
+        # hold for every sampling (straight -> zero, reversal, scaling) are judged there, the value clause is not
+        # (C04 fixes the value on uniformly sampled arcs only; DESIGN section 8, round 7).
+        warped = n >= 3 and rng.random() < 0.3
+        u = np.linspace(0, 1, n)
+        if warped:
+            amp, m, ph = rng.uniform(0.05, 0.3), int(rng.integers(1, 3)), rng.uniform(0, 2 * np.pi)
+            u = u + amp / (2 * np.pi * m) * (np.sin(2 * np.pi * m * u + ph) - np.sin(ph))
+            mon.count("arc:warped")
         if theta == 0.0:
-            z = np.linspace(0, 1, n) + 0j
+            z = u + 0j
         else:
-            a = np.linspace(0, theta, n)
+            a = theta * u
             z = R * np.exp(1j * sgn * a) / theta          # unit length
         zz = z * scale * rot + off
         be, keep = _arc_bigedge(zz)
@@ -259,7 +268,7 @@ def _arcs_case(case, mon, sigs):
         if theta == 0.0:
             if abs(est) > 1e-9 * n:
                 mon.fail("turning-straight", "turning of a straight interface is zero", got=float(est), n=n)
-        elif n >= 3:
+        elif n >= 3 and not warped:
             ref = theta * (n - 2) / (n - 1)
             rel = abs(abs(est) - ref) / ref
             worst = max(worst, rel / 0.03)
@@ -278,7 +287,7 @@ def _arcs_case(case, mon, sigs):
         est3 = be3.calculate_total_curvature(normalized=False)
         if abs(est3 - est) > 1e-7 * abs(est) + 1e-10 * n:
             mon.fail("turning-scale", "the estimate is unchanged by uniform scaling", a=float(est), b=float(est3), s=float(s2))
-        sigs.append(["arc", n, round(theta, 1), sgn])
+        sigs.append(["arc", n, round(theta, 1), sgn, int(warped)])
     return worst
 
 
